@@ -32,13 +32,16 @@ impl Rng {
 
 // ---------------------------------------------------------------- building blocks
 pub fn component(r: &mut Rng) -> u64 {
-    match r.below(10) {
+    match r.below(12) {
         0..=3 => r.below(3),
         4 => 9 + r.below(3),
         5 => 99 + r.below(3),
         6 => MAX_SAFE_INTEGER - r.below(2),
         7 => r.below(1000),
         8 => r.below(MAX_SAFE_INTEGER),
+        // powers of two where a narrowing cast would bite
+        9 => *r.pick(&[255u64, 256, 32767, 32768, 65535, 65536, 2147483647, 2147483648, 4294967295, 4294967296, 4294967297,
+                       99999999999999, 100000000000000, 281474976710656]),
         _ => r.below(5),
     }
 }
@@ -141,7 +144,8 @@ pub fn range_struct(r: &mut Rng, pool: &[Version], maxalts: u64) -> Value {
 fn ranges<W: Write>(r: &mut Rng, n: usize, out: &mut W) -> usize {
     for _ in 0..n {
         let pool = tie_pool(r);
-        let a = range_struct(r, &pool, 3);
+        let wide = if r.chance(1, 8) { 5 } else { 3 };
+        let a = range_struct(r, &pool, wide);
         let b = if r.chance(1, 3) { range_struct(r, &pool, 1) } else { range_struct(r, &pool, 3) };
         writeln!(out, "{}", json!({"op":"pair","A":a,"B":b})).unwrap();
     }
@@ -342,6 +346,16 @@ fn vtext<W: Write>(r: &mut Rng, n: usize, out: &mut W) -> usize {
             }
         }
     }
+    // long runs of leading zeros (the value is small), in components and identifiers
+    for z in [1usize, 2, 14, 15, 16, 17, 19, 20, 21, 40] {
+        let zs = "0".repeat(z);
+        all.push(format!("{}1.2.3", zs).into_bytes());
+        all.push(format!("1.{}2.3", zs).into_bytes());
+        all.push(format!("1.2.{}3", zs).into_bytes());
+        all.push(format!("1.2.3-{}7", zs).into_bytes());
+        all.push(format!("1.2.3-a.{}7.b+{}7", zs, zs).into_bytes());
+        all.push(format!("{}.{}.{}", zs, zs, zs).into_bytes());
+    }
     // lengths at and around MAX_LENGTH, ending in 1-4 byte characters
     for total in [254usize, 255, 256, 257, 258, 300] {
         for tail in ["", "a", "é", "€", "😀", "-", ".", "+"] {
@@ -350,6 +364,15 @@ fn vtext<W: Write>(r: &mut Rng, n: usize, out: &mut W) -> usize {
             all.push(format!("{}{}{}", head, "a".repeat(fill), tail).into_bytes());
             all.push(format!("{}{}{}", "x".repeat(total.saturating_sub(tail.len())), "", tail).into_bytes());
             all.push(format!("1.2.3+{}{}", "0".repeat(fill), tail).into_bytes());
+        }
+        // over-long inputs with line breaks and multi-byte characters before the reported position (location())
+        if total > 256 {
+            for head in ["1.2.3-alpha\n", "\n\n1.2.3-", "1.2.3-é\nx\n", "1.2.3+b\r\n", "v1.2.3-a.b\n\n\n"] {
+                let fill = total.saturating_sub(head.len());
+                all.push(format!("{}{}", head, "b".repeat(fill)).into_bytes());
+                let half = fill / 2;
+                all.push(format!("{}{}\n{}", head, "b".repeat(half), "c".repeat(fill - half)).into_bytes());
+            }
         }
         all.push(format!("{}1.2.3", " ".repeat(total - 5)).into_bytes());
         all.push(format!("1.2.3{}", " ".repeat(total - 5)).into_bytes());
@@ -396,6 +419,21 @@ fn vtext<W: Write>(r: &mut Rng, n: usize, out: &mut W) -> usize {
         cnt += 1;
     }
     cnt
+}
+
+/// versions built from canonical identifiers (C12), within the limits a parseable version has
+fn vbuilt<W: Write>(r: &mut Rng, n: usize, out: &mut W) -> usize {
+    for _ in 0..n {
+        let mut v = Version::from((component(r), component(r), component(r)));
+        if r.chance(2, 3) {
+            v.pre_release = idlist(r, 4);
+        }
+        if r.chance(1, 2) {
+            v.build = idlist(r, 3);
+        }
+        writeln!(out, "{}", json!({"op":"vbuilt","v":ver_to_json(&v)})).unwrap();
+    }
+    n
 }
 
 fn vtuples<W: Write>(r: &mut Rng, n: usize, out: &mut W) -> usize {
@@ -479,7 +517,12 @@ pub struct PartialAst {
 fn comp_json(r: &mut Rng, n: u64, zeros: bool) -> (Value, String) {
     let mut s = n.to_string();
     if zeros && r.chance(1, 2) {
-        s = format!("0{}", s);
+        // one leading zero, or a long run of them (the value is what counts, not the number of digits)
+        let k = match r.below(4) {
+            0 => 1 + r.below(20) as usize,
+            _ => 1,
+        };
+        s = format!("{}{}", "0".repeat(k), s);
     }
     (json!({"t":"n","d":s.bytes().map(|b| (b - b'0') as u64).collect::<Vec<_>>()}), s)
 }
@@ -939,6 +982,44 @@ fn timing<W: Write>(_r: &mut Rng, n: usize, out: &mut W) -> usize {
     cnt
 }
 
+/// texts without any valid comparator (C17: NoValidRanges; multi-line and multi-byte for location())
+fn rgarbage<W: Write>(r: &mut Rng, n: usize, out: &mut W) -> usize {
+    const G: &[&str] = &["foo", "1.y", "é", "fo-é", "1.2.3.4", "1..2", ">=", "^", "~", "<>1", "=>1", "1.2.3-", ".", "a\nb", "\n", "€uro", "😀",
+                         ">=a", "~1.y", "^b", "1.2.y", "900719925474100", ">900719925474100.1", "x.y", "1.2.3-é", "v", "=", "<"];
+    for _ in 0..n {
+        let nalts = 1 + r.below(3);
+        let mut alts = Vec::new();
+        let mut ors = Vec::new();
+        let mut text = String::new();
+        for i in 0..nalts {
+            if i > 0 {
+                let l = *r.pick(&["", " ", "  "]);
+                let rr = *r.pick(&["", " ", "  "]);
+                ors.push(json!({"l":bytes(l),"r":bytes(rr)}));
+                text.push_str(l);
+                text.push_str("||");
+                text.push_str(rr);
+            }
+            let k = 1 + r.below(3);
+            let mut cs = Vec::new();
+            let mut seps = Vec::new();
+            for j in 0..k {
+                if j > 0 {
+                    let sep = *r.pick(&[" ", "  ", "\t"]);
+                    seps.push(bytes(sep));
+                    text.push_str(sep);
+                }
+                let g: &str = *r.pick(G);
+                cs.push(json!({"op":"garbage","txt":bytes(g)}));
+                text.push_str(g);
+            }
+            alts.push(json!({"cs":cs,"seps":seps}));
+        }
+        writeln!(out, "{}", json!({"op":"rparse","dst":1,"text":bytes(&text),"ast":{"alts":alts,"ors":ors},"vs":[]})).unwrap();
+    }
+    n
+}
+
 fn rtext<W: Write>(r: &mut Rng, n: usize, out: &mut W) -> usize {
     for _ in 0..n {
         let (ast, text, vs) = range_ast(r, 3, true);
@@ -960,10 +1041,12 @@ pub fn generate<W: Write>(scenario: &str, seed: u64, n: usize, out: &mut W) -> u
         "vdiffs" => vdiffs(&mut r, n, out),
         "vtext" => vtext(&mut r, n, out),
         "vtuples" => vtuples(&mut r, n, out),
+        "vbuilt" => vbuilt(&mut r, n, out),
         "rtext" => rtext(&mut r, n, out),
         "rconcat" => rconcat(&mut r, n, out),
         "sessions" => sessions(&mut r, n, out),
         "soup" => soup(&mut r, n, out),
+        "rgarbage" => rgarbage(&mut r, n, out),
         "timing" => timing(&mut r, n, out),
         _ => {
             eprintln!("unknown scenario {}", scenario);
